@@ -186,6 +186,14 @@ def canonicalise(funcs):
         actual = [f.debug.get(l, l) for l, t in f.params]
         if set(actual) == set(canon):
             continue
+        unknown = [a for a in actual if a not in canon]
+        missing = [c for c in canon if c not in actual]
+        if len(unknown) == 1 and len(missing) == 1 and missing[0] not in f.debug_of:
+            # a reordered signature in which one parameter was also renamed: the one unknown name is the one missing name
+            for (l, t), a in zip(f.params, actual):
+                if a == unknown[0]:
+                    f.debug[l] = missing[0]; f.debug_of.pop(a, None); f.debug_of[missing[0]] = l
+            continue
         for (l, t), a, c in zip(f.params, actual, canon):
             if a != c and a not in canon and c not in actual and c not in f.debug_of:
                 f.debug[l] = c
